@@ -451,6 +451,12 @@ func authtxWorld(rng *Rng, n int, out *Out, replay string, variant int) {
 				one(h2, shape, who, k+j)
 			}
 		}
+		if variant == 2 {
+			// endgame of the sparse world (see adminEndgame): ADMIN holders go down to one, then to zero, by signed transactions
+			adminEndgame(adminHolders(app, app.BaseApp.NewContext(true, header()), addrs), NACC, cases, func(hc handlerCase, signer int, k int) {
+				one(hc, []string{"direct", "wrapped"}[k%2], signer, k)
+			})
+		}
 		out.Extra["blocks"] = height
 	}
 }
